@@ -121,7 +121,14 @@ def hetero_vector(rng, n, edges):
                 st = "plain"
             styles["%d-%d" % (a, b)] = st
     dangling = rng.randrange(n) if rng.random() < 0.15 else None
-    return {"kinds": vec, "dangling": dangling, "styles": styles}
+    # references that are NOT containment: a function block's VAR_EXTERNAL names a global of any type (its own included)
+    externals = {}
+    for i in range(n):
+        if vec[i] == "fb" and rng.random() < 0.3:
+            externals[str(i)] = [rng.randrange(n) for _ in range(rng.randint(1, 2))]
+    # an alias may carry a default value: `TYPE A : B := v; END_TYPE`
+    alias_default = [i for i in range(n) if vec[i] == "alias" and rng.random() < 0.4]
+    return {"kinds": vec, "dangling": dangling, "styles": styles, "externals": externals, "alias_default": alias_default}
 
 
 def realise_hetero(n, edges, order, vec):
@@ -145,11 +152,12 @@ def realise_hetero(n, edges, order, vec):
         if k in ("alias", "arrayof") and len(names) != 1:
             k = "struct"
         if k == "fb":
-            decls.append("FUNCTION_BLOCK N%d VAR_INPUT x : INT; END_VAR VAR %s END_VAR END_FUNCTION_BLOCK" % (i, " ".join(refs) or "y : INT;"))
+            ext = "".join(" VAR_EXTERNAL g%d_%d : N%d; END_VAR" % (i, j, b) for j, b in enumerate(vec.get("externals", {}).get(str(i), [])))
+            decls.append("FUNCTION_BLOCK N%d VAR_INPUT x : INT; END_VAR VAR %s END_VAR%s END_FUNCTION_BLOCK" % (i, " ".join(refs) or "y : INT;", ext))
         elif k == "struct":
             decls.append("TYPE N%d : STRUCT x : INT; %s END_STRUCT; END_TYPE" % (i, " ".join(refs)))
         elif k == "alias":
-            decls.append("TYPE N%d : %s; END_TYPE" % (i, names[0]))
+            decls.append("TYPE N%d : %s%s; END_TYPE" % (i, names[0], " := dflt_%d" % i if i in vec.get("alias_default", []) else ""))
         elif k == "arrayof":
             decls.append("TYPE N%d : ARRAY[0..3] OF %s; END_TYPE" % (i, names[0]))
         elif k == "enum":
@@ -248,6 +256,10 @@ def judge(res, probe, kind, n, edges, order, bad_kinds, recase_rng=None, vec=Non
         res.seen("hetero_kind_sets", "+".join(sorted(set(vec["kinds"]))) + ("+dangling" if vec["dangling"] is not None else ""))
         for st in set(vec.get("styles", {}).values()):
             res.seen("reference_spellings", st)
+        if vec.get("externals"):
+            res.seen("reference_spellings", "var-external (no edge)")
+        if vec.get("alias_default"):
+            res.seen("reference_spellings", "alias-with-default")
     if obs.get("watchdog"):
         res.inconclusive.append({"why": "watchdog", "case": case})
         return
